@@ -44,6 +44,12 @@ func main() {
 		os.Exit(2)
 	}
 	if tier == "--replay" {
+		if len(os.Args) >= 4 && id != "C08" && id != "C29" && id != "C33" {
+			defer engine.Cleanup()
+			code := replayLedger(id, os.Args[3])
+			engine.Cleanup()
+			os.Exit(code)
+		}
 		tier = "quick"
 	}
 	if pf := os.Getenv("VERIF_PPROF"); pf != "" && os.Getenv("VERIF_BFS_WORKER") != "" {
